@@ -157,3 +157,24 @@ func sameConst(a, b any) bool {
 	}
 	return a == b
 }
+
+// C16_ExecuteOptions: options given to Execute do not stick to the Prog: a
+// later plain Execute behaves like the first one.
+func C16_ExecuteOptions() {
+	src := "var x = 1001\nprint x\ndef t {\n f = x\n}\nbind t -> struct\nbind t -> slice\n"
+	out, log := &symio.Writer{}, &symio.Writer{}
+	p, err := bcl.Parse([]byte(src), "src", bcl.OptOutput(out), bcl.OptLogger(log))
+	if err != nil {
+		panic("rejected")
+	}
+	patchConst(p, 1001, verif.Int("k"))
+	bcl.Execute(p)
+	o1, l1 := out.String(), log.String()
+	out.Buf, log.Buf = nil, nil
+	other, otherLog := &symio.Writer{}, &symio.Writer{}
+	bcl.Execute(p, bcl.OptOutput(other), bcl.OptLogger(otherLog), bcl.OptTrace(verif.Bool("trace")), bcl.OptStats(verif.Bool("stats")))
+	out.Buf, log.Buf = nil, nil
+	bcl.Execute(p)
+	verif.Assert(out.String() == o1 && log.String() == l1, "a plain Execute after one with options behaves like the first")
+	verif.Reach("compared")
+}
